@@ -94,6 +94,19 @@ PROPS["C17"] = dict(
                   "data-race freedom is observed by Go's race detector on the stress cases (harness built with -race), not proved"],
     assumptions=["targets are comparable pointers; the recovery handler does not panic"],
 )
+PROPS["C07"] = dict(
+    n_quick=2400, n_thorough=200000, shards=8, coq_dirs=["C07"],
+    rule="cases: histories of 1-140 Insert/Remove/Reorganize/Clear on QuadTree[int] and QuadTree[float64] (dyadic values, exact arithmetic) "
+         "with thresholds 0,4,5,8,64,1000; rectangles empty, sub-unit, huge, identical, abutting, overlapping, far outside the root; re-insertion "
+         "of an existing node, removal of absent nodes. After EVERY operation: Size, All and all sixteen queries (point, intersects, "
+         "contains-rect, contained-by-rect; Find and boolean; with and without a matcher) for 3 probe points and 3 probe rectangles (on "
+         "corners/edges of stored rectangles), as sorted id multisets. non-trivial = history of >= 3 operations (class +split: more live "
+         "nodes than the threshold, so nodes were split); distinct = distinct case text",
+    trivial_class=r"(trivial|^bad$|^exn$)",
+    trusted_base=["the tree shape is not observable: K compares query results only; the model's placement may differ from the code's",
+                  "float64 arithmetic compared on exactly representable (dyadic) coordinates only"],
+    assumptions=["ids identify nodes (a node's bounds do not change while it is stored)", "no integer overflow, finite floats"],
+)
 
 # properties not (yet) claimed, with the reason; an entry is dropped automatically once the property is in PROPS
 NOT_APPLICABLE = {
@@ -102,6 +115,16 @@ NOT_APPLICABLE = {
 }
 
 MANIFEST_TEXT = {
+    "C07": dict(
+        level_text="Proof: for every history of Insert/Remove/Reorganize/Clear, every threshold and rational coordinates (all ints and finite "
+                   "floats), the stored multiset and Size equal the list specification, the invariant 'every stored node is Contains-inside the "
+                   "rectangle of every tree node above it' holds, and under it each of the sixteen queries returns exactly (as a multiset) what "
+                   "a linear scan with the geom predicate returns, boolean queries being true iff that scan is non-empty -- Coq theorems built "
+                   "on the C18 rectangle theorems, independent of tree shape and halving. The model is compared with the real QuadTree on int "
+                   "and exact float64 histories after every operation, and a separately coded linear scan is applied to the implementation's answers.",
+        level_note="Trusted: Coq kernel, extraction, drivers, harness; model hand-written, tied by correspondence on sampled histories "
+                   "(query results only; shape unobservable); float rounding outside the dyadic domain not covered.",
+        technique="Coq proof (invariant + refinement by induction over histories, pruning lemmas from C18) on a hand-written Gallina model + differential correspondence check"),
     "C17": dict(
         level_text="Proof: Notify consults exactly the dot-ancestors of the normalised name (never a textual prefix), calls nobody when "
                    "disabled / for an empty name / after Reset, and k nested StartBatch/EndBatch pairs send BatchMode(true) once on the "
